@@ -3,14 +3,16 @@ CHECK = {
         suite("pins", "c14", 400, 4000, stdin=True, args=["-suite", "pins"], timeout={"quick": 600, "thorough": 1800}),
         suite("rot", "c14", 400, 4000, stdin=True, args=["-suite", "rot"], timeout={"quick": 600, "thorough": 1800}),
         suite("ps", "c14", 800, 8000, stdin=True, args=["-suite", "ps"], timeout={"quick": 600, "thorough": 1800}),
-        suite("start", "c14", 30, 300, stdin=True, args=["-suite", "start"], timeout={"quick": 600, "thorough": 1800}),
+        suite("start", "c14", 14, 400, stdin=True, args=["-suite", "start"], timeout={"quick": 600, "thorough": 1800}),
+        suite("snaps", "c14", 300, 3000, stdin=True, args=["-suite", "snaps"], timeout={"quick": 600, "thorough": 1800}),
         suite("crash", "c14", 24, 240, stdin=True, args=["-suite", "crash"], timeout={"quick": 600, "thorough": 2400}),
     ],
     "search_seeds": {"quick": 3, "thorough": 2},
     "gen": [{"pkg": "extract_c14", "out": "lean/ClusterVerif/Gen/C14.lean"}],
     "lean_sources": ["ClusterVerif/Model/C14Source.lean", "ClusterVerif/Gen/C14.lean", "ClusterVerif/Model/C14.lean", "ClusterVerif/Spec/C14.lean", "ClusterVerif/Lemmas/C14.lean",
                      "ClusterVerif/Model/C14Crash.lean", "ClusterVerif/Spec/C14Crash.lean", "ClusterVerif/Lemmas/C14Crash.lean",
-                     "ClusterVerif/Model/C14Start.lean", "ClusterVerif/Spec/C14Start.lean"],
+                     "ClusterVerif/Model/C14Start.lean", "ClusterVerif/Spec/C14Start.lean", "ClusterVerif/Lemmas/C14Start.lean",
+                     "ClusterVerif/Model/C14Snaps.lean", "ClusterVerif/Spec/C14Snaps.lean", "ClusterVerif/Lemmas/C14Snaps.lean"],
     "rule": "pins: (pinset of 0-40 generated pins over all types/options, prior content of the target, stream damage) through "
             "Marshal/Unmarshal, SnapshotSave/OfflineState, raft and crdt state-manager export/import (and a started Raft peer on some); "
             "rot: (retention, pre-existing folder set with gaps/outside the window, 1-14 clean/save/mkdir/reconfigure operations) on real folders; "
@@ -21,6 +23,10 @@ CHECK = {
             "mkdirat/unlinkat/renameat), directory read back, operation restarted; (old peerstore file, new peer infos) x every kill point of SavePeerstore and every byte cut of the file; "
             "start: (history of a REAL single-voter Raft peer: LogPin/LogUnpin/graceful restarts, ended by a kill = log and no newer snapshot, or by a shutdown; or no folder) "
             "then the raft state manager's ImportState of a pinset onto that data folder (or nothing), offline read, old.0, and the peer STARTED on the result (restore newest snapshot + replay of the log behind it); "
+            "(the start cases run 4 at a time inside the harness; quick 11 corpus + 14 generated, thorough 400); "
+            "snaps: (data folder absent / empty / holding 1-6 REAL hashicorp file snapshots with chosen (term, index) written in any creation order - terms 9/10/11 and indices 9/10/99/100/1000 so that "
+            "numeric and name order differ - and leftovers: an interrupted `.tmp` snapshot, a directory with unreadable meta.json, a plain file) x (offline read | CleanupRaft | SnapshotSave): which snapshot is read, "
+            "metadata of the new snapshot, what old.0 holds; "
             "one splitmix64 stream per case index; non-trivial = exercises a clause; distinct by case line",
     "trusted_base": ["byte-level codecs of the atoms (cid, peer id, multiaddress, strings, time) are abstracted to table indices: "
                      "the harness maps real values back to indices and reports anything it cannot map",
@@ -37,7 +43,10 @@ META = {
             "peerstore file: round-trip identities for every pinset of well-formed pins and any prior content of the target, the rotation "
             "clauses for every pre-existing folder set and every operation sequence, the peerstore round trip and bad-line skipping; "
             "the Raft data folder as (snapshot, log): after `state import` onto ANY folder content (log only, snapshot, both, none) the started peer serves exactly the import "
-            "(import_then_start_id, with the refuted alternative that leaves the backup to SnapshotSave). "
+            "(import_then_start_id, with the refuted alternative that leaves the backup to SnapshotSave); a killed or shut-down single-voter peer restarts with exactly what its operations give, for every "
+            "history of pins/unpins/graceful restarts (restart_keeps_state_full_holds, by the index invariant of the log it writes), and its shutdown snapshot reads offline as that pinset (graceful_offline_id); "
+            "a folder with SEVERAL snapshots and leftovers: the offline read is the snapshot no other is newer than by (term, index), independent of the listing order (offline_reads_newest, newest_perm), "
+            "SnapshotSave onto any such folder reads back as the saved pinset and moves the whole folder to old.0 (save_offline_id_multi, save_backs_up_all, save_fresh). "
             "The model is tied to today's code by running the real dsstate, raft snapshot/cleanup functions, cmdutils state managers and "
             "pstoremgr, and a real single-voter Raft peer (writes the folder, is killed or shut down, is started again after the import) on seeded cases and checking model agreement and the Lean property checker on the real outputs.",
     "note": "export/import is proved for pinsets without origins; a pin with origins cannot be decoded from JSON (known finding K01c). "
